@@ -41,6 +41,7 @@ declarations:
 - decl: namespace inner
   declarations:
   - decl: Cls * spawn(int v) +owner(caller)
+- decl: void maketable(int **tbl +intent(out)+owner(caller)+dimension(n), int n)
 - decl: Cls * pooled(int v) +owner(caller)+free_pattern(pool_release)
 - decl: Cls * make(int v) +owner(caller)
 - decl: Cls * borrow() +owner(library)
@@ -63,6 +64,7 @@ HPP = """
 #include <vector>
 class Cls { public: int value; explicit Cls(int v); ~Cls(); int get() const; Cls *clone(); };
 namespace inner { Cls *spawn(int v); }
+void maketable(int **tbl, int n);
 Cls *pooled(int v);
 void pool_put(Cls *p);
 Cls *make(int v);
@@ -85,6 +87,24 @@ Cls::~Cls() { vt_live(-1); vt_begin("Lib", "dtor"); vt_obj(this); vt_end(); }
 int Cls::get() const { return value; }
 Cls *Cls::clone() { return new Cls(value + 1); }
 Cls *make(int v) { return new Cls(v); }
+// a malloc'ed block handed to the caller; free() is wrapped at link time (-Wl,--wrap=free) to see its release
+static void *tracked_[64]; static unsigned long ntracked_ = 0;      /* ring of the most recent blocks */
+void maketable(int **tbl, int n) {
+    int *p = (int *)malloc(sizeof(int) * (n > 0 ? n : 1));
+    for (int i = 0; i < n; i++) p[i] = i;
+    tracked_[ntracked_++ % 64] = p;
+    vt_live(1); vt_begin("Lib", "ctor"); vt_obj(p); vt_end();
+    *tbl = p;
+}
+extern "C" void __real_free(void *p);
+extern "C" void __wrap_free(void *p) {
+    for (int i = 0; i < 64; i++) if (tracked_[i] == p && p) {
+        tracked_[i] = 0;
+        vt_live(-1); vt_begin("Lib", "dtor"); vt_obj(p); vt_end();
+        break;
+    }
+    __real_free(p);
+}
 namespace inner { Cls *spawn(int v) { return new Cls(v + 7); } }
 Cls *pooled(int v) { return new Cls(v + 500); }
 void pool_put(Cls *p) { vt_begin("Lib", "pool"); vt_obj(p); vt_end(); delete p; }
@@ -106,10 +126,10 @@ CDRIVER = r"""
 #include "wrapown.h"
 #include "wrapCls.h"
 #include "typesown.h"
-enum { CTOR, MAKE, BORROW, CLONE, METHOD, COPY, DTOR, RELEASE, POOLED, NOPS };
-static const char *opname[] = {"ctor", "make", "borrow", "clone", "method", "copy", "dtor", "release", "pooled"};
+enum { CTOR, MAKE, BORROW, CLONE, METHOD, COPY, DTOR, RELEASE, POOLED, MAKEARR, NOPS };
+static const char *opname[] = {"ctor", "make", "borrow", "clone", "method", "copy", "dtor", "release", "pooled", "makearr"};
 static OWN_Cls H[2];
-static int borrowed[2], alias_of[2], gone[2], inpool[2];
+static int borrowed[2], alias_of[2], gone[2], inpool[2], isarr[2];
 static void snap(const char *op, int h, int g) {
     int k;
     vt_begin("Op", op); vt_int(h); vt_int(g);
@@ -119,7 +139,8 @@ static void snap(const char *op, int h, int g) {
 static int allowed(int op, int h, int g) {
     /* a correct caller: no call through an empty handle, never destroys library memory itself,
        releases a copied handle through one of the copies only */
-    if ((op == CLONE) && (H[g].addr == NULL || gone[g])) return 0;
+    if ((op == CLONE) && (H[g].addr == NULL || gone[g] || isarr[g])) return 0;
+    if ((op == METHOD || op == DTOR) && isarr[h]) return 0;      /* a block of ints is not an object */
     if ((op == METHOD || op == DTOR) && (H[h].addr == NULL || gone[h])) return 0;
     if (op == DTOR && (borrowed[h] || inpool[h])) return 0;
     if (op == COPY && (h == g)) return 0;
@@ -130,17 +151,20 @@ static int allowed(int op, int h, int g) {
 }
 static void apply(int op, int h, int g) {
     /* a handle that receives a new value is no longer the copy of anything */
-    if (op == CTOR || op == MAKE || op == POOLED || op == BORROW || op == CLONE || op == COPY) {
+    if (op == CTOR || op == MAKE || op == POOLED || op == BORROW || op == CLONE || op == COPY || op == MAKEARR) {
         int k; for (k = 0; k < 2; k++) if (k != h && alias_of[k] == h) alias_of[k] = -1;
     }
     switch (op) {
-    case CTOR: OWN_Cls_ctor(7, &H[h]); borrowed[h] = 0; alias_of[h] = -1; gone[h] = 0; inpool[h] = 0; break;
-    case MAKE: OWN_make(3, &H[h]); borrowed[h] = 0; alias_of[h] = -1; gone[h] = 0; inpool[h] = 0; break;
-    case POOLED: OWN_pooled(4, &H[h]); borrowed[h] = 0; alias_of[h] = -1; gone[h] = 0; inpool[h] = 1; break;
-    case BORROW: OWN_borrow(&H[h]); borrowed[h] = 1; alias_of[h] = -1; gone[h] = 0; inpool[h] = 0; break;
-    case CLONE: { OWN_Cls tmp; OWN_Cls_clone(&H[g], &tmp); H[h] = tmp; borrowed[h] = 0; alias_of[h] = -1; gone[h] = 0; inpool[h] = 0; break; }
+    case CTOR: OWN_Cls_ctor(7, &H[h]); isarr[h] = 0; borrowed[h] = 0; alias_of[h] = -1; gone[h] = 0; inpool[h] = 0; break;
+    case MAKE: OWN_make(3, &H[h]); isarr[h] = 0; borrowed[h] = 0; alias_of[h] = -1; gone[h] = 0; inpool[h] = 0; break;
+    case POOLED: OWN_pooled(4, &H[h]); borrowed[h] = 0; alias_of[h] = -1; gone[h] = 0; inpool[h] = 1; isarr[h] = 0; break;
+    case MAKEARR: { OWN_SHROUD_array D; memset(&D, 0, sizeof D); OWN_maketable_bufferify(&D, 3);
+                    H[h].addr = D.cxx.addr; H[h].idtor = D.cxx.idtor;
+                    borrowed[h] = 0; alias_of[h] = -1; gone[h] = 0; inpool[h] = 0; isarr[h] = 1; break; }
+    case BORROW: OWN_borrow(&H[h]); isarr[h] = 0; borrowed[h] = 1; alias_of[h] = -1; gone[h] = 0; inpool[h] = 0; break;
+    case CLONE: { OWN_Cls tmp; OWN_Cls_clone(&H[g], &tmp); H[h] = tmp; isarr[h] = 0; borrowed[h] = 0; alias_of[h] = -1; gone[h] = 0; inpool[h] = 0; break; }
     case METHOD: (void)OWN_Cls_get(&H[h]); break;
-    case COPY: H[h] = H[g]; borrowed[h] = borrowed[g]; inpool[h] = inpool[g]; alias_of[h] = g; alias_of[g] = h; gone[h] = gone[g]; break;
+    case COPY: H[h] = H[g]; isarr[h] = isarr[g]; borrowed[h] = borrowed[g]; inpool[h] = inpool[g]; alias_of[h] = g; alias_of[g] = h; gone[h] = gone[g]; break;
     case DTOR: OWN_Cls_dtor(&H[h]); gone[h] = 1; if (alias_of[h] >= 0) gone[alias_of[h]] = 1; break;
     case RELEASE: OWN_SHROUD_memory_destructor((OWN_SHROUD_capsule_data *)&H[h]);
                   if (!borrowed[h]) { gone[h] = 1; if (alias_of[h] >= 0) gone[alias_of[h]] = 1; } break;
@@ -162,7 +186,7 @@ int main(void) {
             for (k = 0; k < L; k++) { int op = idx[k] / 4, g = idx[k] %% 2; if (op != CLONE && op != COPY && g != 0) ok = 0; }
             if (!ok) continue;
             if (%(stride)d > 1 && L == MAXL && (s %% %(stride)d) != %(phase)d) continue;
-            memset(H, 0, sizeof H); borrowed[0] = borrowed[1] = 0; alias_of[0] = alias_of[1] = -1; gone[0] = gone[1] = 0; inpool[0] = inpool[1] = 0;
+            memset(H, 0, sizeof H); isarr[0] = isarr[1] = 0; borrowed[0] = borrowed[1] = 0; alias_of[0] = alias_of[1] = -1; gone[0] = gone[1] = 0; inpool[0] = inpool[1] = 0;
             vt_begin("SeqBegin", "seq"); vt_int(nseq); vt_int(vt_live(0)); vt_end();
             for (k = 0; k < L; k++) {
                 int op = idx[k] / 4, h = (idx[k] / 2) %% 2, g = idx[k] %% 2;
@@ -260,7 +284,7 @@ def run_c_driver(d, lib, maxl, stride, phase):
     if rc != 0:
         return None, "compile driver: " + txt[-1500:], ""
     exe = os.path.join(d, "cdrv_%d" % phase)
-    rc, txt = sh(["g++", "-fsanitize=address", "-o", exe, o] + objs, d)
+    rc, txt = sh(["g++", "-fsanitize=address", "-Wl,--wrap=free", "-o", exe, o] + objs, d)
     if rc != 0:
         return None, "link: " + txt[-1200:], ""
     tf = os.path.join(d, "trace_%d.ndjson" % phase)
@@ -291,7 +315,7 @@ def idtor_kinds(out):
                 continue
             for cm in re.finditer(r"case (\d+):(.*?)break;", m.group(0), re.S):
                 body = re.sub(r"//[^\n]*", "", cm.group(2))
-                k = "pool" if "pool_put" in body else ("delete" if "delete" in body else "none")
+                k = "pool" if "pool_put" in body else ("delete" if ("delete" in body or "free(" in body) else "none")
                 kinds[int(cm.group(1))] = k
     return kinds
 
@@ -360,7 +384,7 @@ def fortran_part(c, d, lib):
             return 0
         fobjs.append(o)
     exe = os.path.join(d, "fdrv")
-    rc, txt = sh(["gfortran", "-fsanitize=address", "-o", exe] + fobjs + objs + ["-lstdc++"], d)
+    rc, txt = sh(["gfortran", "-fsanitize=address", "-Wl,--wrap=free", "-o", exe] + fobjs + objs + ["-lstdc++"], d)
     if rc != 0:
         c.violation("fortran-link", "link fails: " + txt[-800:])
         return 0
